@@ -22,6 +22,8 @@ theorem mutexes_are_the_source : RoGen.Kernel.mutexes = Expected.mutexes := by d
 
 theorem subscribe_wrapper_is_the_source : RoGen.Kernel.subscribeWrapper = Expected.subscribeWrapper := by decide
 
+theorem collect_wrapper_is_the_source : RoGen.Kernel.collectWrapper = Expected.collectWrapper := by decide
+
 /-- hence the interpreter runs the regenerated programs -/
 theorem progs_eq : lookup RoGen.Kernel.table = Expected.progs := by
   rw [progs_are_the_source]; rfl
